@@ -7,7 +7,7 @@ Parts (each a list of cases; `check(inp)` runs one case and returns None or a fa
   add-noise       AcquisitionBase._add_noise / acquire with scalar / per-parameter / zero / no noise on points incl. the box corners
   uniform         UniformAcquisition.acquire
   rules           ExpIntVar (grid / importance), MaxVar, LCBSC acquire(n, t) called directly on a fitted surrogate: exactly n points inside the bounds
-  randmaxvar      RandMaxVar.acquire (metropolis): exactly n points or ValueError; inside the bounds when the prior support is inside the
+  randmaxvar      RandMaxVar.acquire (metropolis, nuts and the default sampler): no crash, exactly n points or ValueError; inside the bounds when the prior support is inside the
                   bounds; the case prior support NOT inside the bounds is the known finding C11-F8 (signature c11:prior-support-not-in-bounds)
   bo              BayesianOptimization runs with tiny budgets (n_evidence <= 12) under a schedule-driven client (is_ready answers from a
                   bit string, tasks run when their result is fetched): acquired points inside the bounds and exactly n per call, no pending
@@ -259,7 +259,8 @@ def check_randmaxvar(inp):
         m, _ = build_model(elfi, inp['prior'])
         gp = _fitted_gp(elfi, inp['seed'])
         lo, hi = _lohi()
-        acq = RandMaxVar(gp, ModelPrior(m, parameter_names=GP_NAMES), sampler='metropolis', n_samples=inp['n_samples'], seed=inp['seed'])
+        skw = {} if inp.get('sampler', 'metropolis') is None else dict(sampler=inp.get('sampler', 'metropolis'))       # None: the class default ('nuts')
+        acq = RandMaxVar(gp, ModelPrior(m, parameter_names=GP_NAMES), n_samples=inp['n_samples'], seed=inp['seed'], **skw)
         try:
             with native.time_limit(60):
                 x = np.asarray(acq.acquire(inp['n'], t=0))
@@ -518,7 +519,9 @@ def signature(inp, what):
     if inp['kind'] == 'randmaxvar':
         if 'outside the bounds' in what:
             return 'c11:prior-support-not-in-bounds' if inp['prior'] != 'inside' else 'c11:randmaxvar-out-of-bounds'
-        return 'c11:randmaxvar-point-count'
+        if ' returned ' in what and ' points' in what:
+            return 'c11:randmaxvar-point-count'
+        return 'c11:randmaxvar-%s-crash' % (inp.get('sampler', 'metropolis') or 'nuts')
     if inp['kind'] in ('bo', 'bo-schedules'):
         for key, sig in (('pending', 'c11:pending-at-acquire'), ('acquisition index', 'c11:acquisition-index'), ('n_evidence', 'c11:n_evidence'), ('outside the bounds', 'c11:bo-out-of-bounds'),
                          ('differs between worker schedules', 'c11:schedule-dependent-evidence'), ('surrogate evidence', 'c11:evidence-not-consumed-batches')):
@@ -537,6 +540,9 @@ def replay_input(inp):
     try:
         return check(inp) is None
     except native.NativeTimeout:
+        return False
+    except Exception as e:          # a crash of the real code on the input: the property does not hold there
+        print('%s: %s' % (type(e).__name__, str(e)[:300]))
         return False
 
 
@@ -566,7 +572,10 @@ def randmaxvar_cases(tier, seed):
            dict(kind='randmaxvar', prior='inside', n=10, n_samples=20, seed=seed),
            dict(kind='randmaxvar', prior='inside', n=11, n_samples=20, seed=seed),
            dict(kind='randmaxvar', prior='inside', n=20, n_samples=20, seed=seed),
-           dict(kind='randmaxvar', prior='inside', n=21, n_samples=20, seed=seed)]
+           dict(kind='randmaxvar', prior='inside', n=21, n_samples=20, seed=seed),
+           dict(kind='randmaxvar', prior='inside', n=3, n_samples=20, seed=seed + 1, sampler=None),        # the default sampler (nuts)
+           dict(kind='randmaxvar', prior='inside', n=1, n_samples=20, seed=seed, sampler='nuts'),
+           dict(kind='randmaxvar', prior='wide', n=4, n_samples=20, seed=seed + 2, sampler='nuts')]
     if tier != 'quick':
         out += [dict(kind='randmaxvar', prior=p, n=n, n_samples=40, seed=seed + 2) for p in ('normal', 'inside', 'wide') for n in (1, 5, 20, 30)]
     return out
@@ -587,7 +596,7 @@ def run(tier='quick', seed=0, which=None):
         groups.append(_group('model-based-rules-acquire', 'ExpIntVar (grid / importance), MaxVar, LCBSC(noise 0.3): acquire(n, t) for n in 1..7 on a surrogate fitted to 8 points',
                              'every case', rule_cases(tier, seed)))
     if want('randmaxvar'):
-        groups.append(_group('randmaxvar-acquire', 'metropolis sampler, chain length 20-40, n from 1 to n_samples+1, three prior supports',
+        groups.append(_group('randmaxvar-acquire', 'metropolis, nuts and default sampler, chain length 20-40, n from 1 to n_samples+1, three prior supports',
                              'non-trivial = n > 1', randmaxvar_cases(tier, seed), lambda i: i['n'] > 1))
     if want('bo'):
         sch = schedules(tier, seed)
